@@ -42,6 +42,10 @@ def run(tier):
                for i, (p, b, a) in enumerate((p, b, a) for p in ("frost-keygen", "frost-refresh", "taproot-keygen", "taproot-refresh")
                                              for b in ("a", "b", "c")
                                              for a in ("plus", "minus", "eval0", "eval0-empty", "evalk", "evalk-empty"))]
+    # a malformed chain-key contribution / RID that is committed to consistently (only the validation of the opened value stops it)
+    dealers += [{"kind": "dealercheat", "proto": pr, "n": 3, "t": 1, "byz": "abc"[(i + vlib.seed()) % 3], "alt": "commit:" + a, "sched": vlib.seed() * 5 + 200 + i}
+                for i, (pr, a) in enumerate((pr, a) for pr in ("frost-keygen", "taproot-keygen", "frost-refresh", "cmp-keygen", "cmp-refresh")
+                                            for a in ("c-short", "c-long", "c-empty", "rid-short", "rid-long", "rid-empty") if pr.startswith("cmp") or a.startswith("c-"))]
     # the same for CMP: the polynomial a party deals is replaced at start, so that its commitment, shares and proofs agree with it
     dealers += [{"kind": "dealercheat", "proto": pr, "n": 3, "t": 1, "byz": b, "alt": a, "sched": vlib.seed() * 5 + 100 + i}
                 for i, (pr, b, a) in enumerate((pr, b, a) for pr in ("cmp-keygen", "cmp-refresh") for b in ("a", "b", "c")
